@@ -138,6 +138,16 @@ def run(ctx):
     # ---- (4) conversions ----------------------------------------------------------------------------
     for cfg in ("specialized", "sync+specialized"):
         check_conversions(ctx, ctx.lib(cfg), cfg)
+        # the Value / Variable rows rest on the kind tables of the conversion code itself (shared with C08):
+        # TryFrom<Value> incl. convert_map inserting every member, and Serialize for Variable
+        from . import c08
+        saved = ctx.key_prefix
+        ctx.key_prefix = f"[{cfg}] "
+        try:
+            ctx.attempt("check_tryfrom", c08.check_tryfrom, ctx, ctx.lib(cfg))
+            ctx.attempt("check_serialize", c08.check_serialize, ctx, ctx.lib(cfg))
+        finally:
+            ctx.key_prefix = saved
     # generic body in every configuration
     for cfg in CONFIGS_QUICK:
         check_generic(ctx, ctx.lib(cfg), cfg)
